@@ -371,7 +371,22 @@ func hostileState(r *rand.Rand, st State) []string {
 	var what []string
 	n := 1 + r.Intn(3)
 	for i := 0; i < n; i++ {
-		switch r.Intn(10) {
+		switch r.Intn(13) {
+		case 10:
+			f.AnyB = "yes"
+			what = append(what, "interface field holds a string where a boolean is expected")
+		case 11:
+			f.MAny["b"] = int64(1)
+			what = append(what, "map entry holds a number where a boolean is expected")
+		case 12:
+			if t, ok := st["J"].(*JSONFact).Tree.(map[string]interface{}); ok {
+				for k, v := range t {
+					if _, isb := v.(bool); isb {
+						t[k] = "yes"
+					}
+				}
+			}
+			what = append(what, "JSON member holds a string where a boolean is expected")
 		case 0:
 			f.In = nil
 			what = append(what, "nil nested pointer")
